@@ -69,6 +69,13 @@ class LasAppender:
         self.closefd = closefd
         self.encoding_errors = encoding_errors
 
+        # the EVLRs are written back when the appender is closed: like the header,
+        # what cannot be written back is refused now, before anything is appended
+        if self.evlrs is not None:
+            self.evlrs.write_to(
+                io.BytesIO(), as_extended=True, encoding_errors=encoding_errors
+            )
+
     def append_points(self, points: PackedPointRecord) -> None:
         """Append the points to the file, the points
         must have the same point format as the points
@@ -138,7 +145,9 @@ class LasAppender:
         ):
             self.header.number_of_evlrs = len(self.evlrs)
             self.header.start_of_first_evlr = self.dest.tell()
-            self.evlrs.write_to(self.dest, as_extended=True)
+            self.evlrs.write_to(
+                self.dest, as_extended=True, encoding_errors=self.encoding_errors
+            )
             # the EVLRs may have been relocated before their old position (unused
             # bytes between the points and the EVLRs of the original file): what is left
             # of the old ones after the new end is not part of the file anymore
